@@ -2616,23 +2616,27 @@ fn gen_c11x(ch: &mut Choices) -> Plan {
 // ------------------------------------------------------------------------------------------
 // C13X: every short sequence of external events against the waiter queue
 
-pub const C13X_LETTERS: u64 = 15;
-pub const C13X_KITS: u64 = 4;
+pub const C13X_LETTERS: u64 = 27;
+pub const C13X_KITS: u64 = 6;
 pub const C13X_CONFIGS: u64 = 4 * 2 * C13X_KITS; // roles x windows x kits
-pub const C13X_MAX_LEN: u32 = 5;
+pub const C13X_MAX_LEN: u32 = 4;
 
 fn c13x_letter(l: u32) -> crate::plan::ExtStep {
     use crate::plan::{ExtAct, ExtStep};
     match l {
-        0..=2 => ExtStep { act: ExtAct::Go(l as usize), eager: false },
-        3..=5 => ExtStep { act: ExtAct::Cancel(l as usize - 3), eager: false },
-        6 => ExtStep { act: ExtAct::Ack, eager: false },
-        7 => ExtStep { act: ExtAct::StallOn, eager: false },
-        8 => ExtStep { act: ExtAct::StallOff, eager: false },
-        // right behind the previous letter, before any task has been polled: an operation started, or a
-        // waiting one dropped, between an event and the wake-up it causes
-        9..=11 => ExtStep { act: ExtAct::Go(l as usize - 9), eager: true },
-        _ => ExtStep { act: ExtAct::Cancel(l as usize - 12), eager: true },
+        0..=2 => ExtStep { act: ExtAct::Go(l as usize), delay: 255 },
+        3..=5 => ExtStep { act: ExtAct::Cancel(l as usize - 3), delay: 255 },
+        6 => ExtStep { act: ExtAct::Ack, delay: 255 },
+        7 => ExtStep { act: ExtAct::StallOn, delay: 255 },
+        8 => ExtStep { act: ExtAct::StallOff, delay: 255 },
+        // an operation started, or a waiting one dropped, 0 / 1 / 2 task polls behind the previous letter:
+        // between an event and the wake-up it causes
+        _ => {
+            let m = l - 9; // 0..18: (go | cancel) x sender x delay
+            let delay = (m % 3) as u8;
+            let who = ((m / 3) % 3) as usize;
+            if m / 9 == 0 { ExtStep { act: ExtAct::Go(who), delay } } else { ExtStep { act: ExtAct::Cancel(who), delay } }
+        }
     }
 }
 
@@ -2689,7 +2693,21 @@ fn gen_c13x(ch: &mut Choices) -> Plan {
         0 => vec![vec![q1.clone(), q1.clone()], vec![q1.clone(), q1.clone()], vec![q1.clone(), q1.clone()]],
         1 => vec![vec![q1.clone(), q1.clone()], vec![AppOp::Ready, q1.clone()], vec![q1.clone(), AppOp::Ready]],
         2 => vec![vec![AppOp::PubQ2 { len: 2, pid: None }, AppOp::Release, q1.clone()], vec![q1.clone(), q1.clone()], vec![AppOp::Ready, q1.clone()]],
-        _ => vec![vec![AppOp::PubQ1Nb { len: 2, pid: None }, q1.clone()], vec![q1.clone(), AppOp::PubQ0 { len: 2 }], vec![AppOp::Unpolled { what: 1 }, q1.clone()]],
+        3 => vec![vec![AppOp::PubQ1Nb { len: 2, pid: None }, q1.clone()], vec![q1.clone(), AppOp::PubQ0 { len: 2 }], vec![AppOp::Unpolled { what: 1 }, q1.clone()]],
+        // caller-chosen identifiers that collide with each other and with the first generated one
+        4 => {
+            let one = AppOp::PubQ1 { len: 2, pid: Some(1) };
+            let other = if role.is_server() { AppOp::PubQ2 { len: 2, pid: Some(1) } } else { AppOp::Subscribe { n: 1, pid: Some(1) } };
+            vec![vec![one.clone(), one], vec![q1.clone(), other], vec![q1.clone(), q1.clone()]]
+        }
+        // requests that are not publishes (clients), a streamed publish (servers)
+        _ => {
+            if role.is_server() {
+                vec![vec![AppOp::StreamQ1 { size: 8, chunks: vec![4, 4], pid: None }, q1.clone()], vec![q1.clone(), q1.clone()], vec![AppOp::PubQ0 { len: 2 }, q1.clone()]]
+            } else {
+                vec![vec![AppOp::Subscribe { n: 1, pid: None }, AppOp::Subscribe { n: 2, pid: None }], vec![q1.clone(), q1.clone()], vec![AppOp::Unsubscribe { n: 1, pid: None }, q1.clone()]]
+            }
+        }
     };
     plan.ext_script = letters.iter().map(|l| c13x_letter(*l)).collect();
     plan.peer.auto_ack = true;
